@@ -465,3 +465,23 @@ Proof.
     + rewrite <- (proj1 (mccs_size_symmetric has_mono has_mono_contract [1; 2]%N [9; 3]%N 4%N 5%N gCO gCOm wf_gCO wf_gCOm)). vm_compute. reflexivity.
     + vm_compute. discriminate.
 Qed.
+
+(* ------------------------------------------------------------------ the observed number of matcher constructions *)
+(** [tries_in] (the count the correspondence compares with the number of GraphMatcher objects the implementation builds) walks the
+    candidate list exactly like [first_some candidate]: it reports success iff a candidate is found, never counts more than the list
+    is long, and counts at least one construction whenever it reports success *)
+Lemma tries_in_spec vf2b nm em larger smaller l :
+  (snd (tries_in vf2b nm em larger smaller l) = true <-> first_some (candidate vf2b nm em larger smaller) l <> None) /\
+  fst (tries_in vf2b nm em larger smaller l) <= length l /\
+  (snd (tries_in vf2b nm em larger smaller l) = true -> 1 <= fst (tries_in vf2b nm em larger smaller l)).
+Proof.
+  induction l as [|x r (IH1 & IH2 & IH3)]; simpl; [split; [split; [discriminate|congruence]|split; [lia|discriminate]]|].
+  unfold candidate at 1. destruct (admissible (induced_sub smaller x)).
+  - destruct (vf2b true nm em larger (induced_sub smaller x)); simpl.
+    + split; [split; [discriminate | reflexivity]|]. split; [lia | lia].
+    + destruct (tries_in vf2b nm em larger smaller r) as [n b]. simpl in *. split; [exact IH1|]. split; [lia | intros _; lia].
+  - split; [exact IH1|]. split; [lia | exact IH3].
+Qed.
+Example ex_tries : mccs_tries has_mono [1; 2]%N [9; 3]%N 4 5 gCOC gCO = 1%nat /\ mccs_tries has_mono [1; 2]%N [9; 3]%N 4 5 gCdotO gCO = 1%nat /\
+                   mccs_tries has_mono [1; 2]%N [9; 3]%N 4 5 gCO gCOm = 2%nat.
+Proof. repeat split; vm_compute; reflexivity. Qed.
